@@ -4,6 +4,7 @@ namespace PyIpmi.Lemmas.Api
 open PyIpmi PyIpmi.Codec PyIpmi.Spec.Bmc PyIpmi.Model.Api PyIpmi.Gen.Tables
 
 set_option maxRecDepth 4000
+set_option linter.unusedSimpArgs false
 
 theorem cold_reset_refines (s : BmcState) : api_cold_reset.run s = (cold_reset s, .ok .unit) := by
   simp [api_cold_reset, api_eval]
